@@ -451,7 +451,7 @@ class Translator:
 
     def white_space(self, body):
         """utils.rs white_space: `if in_directive() { A(s) } else { B(s) }` — modelled as a dedicated constructor pair"""
-        norm = re.sub(r'\s+', ' ', body.strip())
+        norm = re.sub(r'\s+', ' ', re.sub(r'//[^\n]*', '', body).strip())
         m = re.match(r'if in_directive\(\) \{ (.*)\(s\) \} else \{ (.*)\(s\) \}$', norm)
         if not m: raise Unsupported('white_space shape')
         a = Parser(m.group(1)).expr(); b = Parser(m.group(2)).expr()
